@@ -209,6 +209,9 @@ pub struct Exec {
     pub records_all: Vec<LpRecord>,
     pub removed_any: bool,
     pub selfcheck_pm: usize,
+    /// the property the running check judges: violations of *other* properties are recorded but do
+    /// not end the run (unless the tree is unusable), so that they cannot mask a later violation
+    pub focus: Option<String>,
 }
 
 fn aff_q(l: &AffLit) -> AffQ {
@@ -285,6 +288,7 @@ impl Exec {
             records_all: Vec::new(),
             removed_any: false,
             selfcheck_pm: 150,
+            focus: None,
         })
     }
 
@@ -304,6 +308,14 @@ impl Exec {
 
     fn faults_armed(&self) -> bool {
         self.seam.borrow().faults_armed
+    }
+
+    /// Does a violation of `clause` end the run?
+    fn stops(&self, clause: Clause) -> bool {
+        match &self.focus {
+            None => true,
+            Some(f) => clause == Clause::Structure || f == property_of(self.mode, self.faults_armed(), clause),
+        }
     }
 
     fn viol(&self, clause: Clause, class: &str, site: &str, detail: String) -> Violation {
@@ -447,7 +459,9 @@ impl Exec {
                 Ok(cs) => self.absorb_cache_stats(&cs),
                 Err((class, detail)) => {
                     out.violations.push(self.viol(Clause::Cache, &class, site, detail));
-                    out.stop = true;
+                    if self.stops(Clause::Cache) {
+                        out.stop = true;
+                    }
                 }
             }
         }
@@ -468,10 +482,13 @@ impl Exec {
                         if prunes {
                             let class = if d.kind == "definedness" { "definedness_changed" } else { "function_changed" };
                             out.violations.push(self.viol(Clause::Function, class, site, detail));
+                            if self.stops(Clause::Function) {
+                                out.stop = true;
+                            }
                         } else {
                             self.stats.nonpruning_mismatches += 1;
+                            out.stop = true;
                         }
-                        out.stop = true;
                     }
                     Err(why) => {
                         self.stats.unconfirmed_disagreements += 1;
@@ -605,7 +622,9 @@ impl Exec {
                     self.absorb_audit(&a);
                     if let Err((class, detail)) = res {
                         out.violations.push(self.viol(Clause::Cache, &class, &site, detail));
-                        out.stop = true;
+                        if self.stops(Clause::Cache) {
+                            out.stop = true;
+                        }
                     }
                 }
                 if let Some(m) = m {
@@ -775,7 +794,9 @@ impl Exec {
                     self.absorb_audit(&a);
                     if let Err((class, detail)) = res {
                         out.violations.push(self.viol(Clause::Cache, &class, &site, detail));
-                        out.stop = true;
+                        if self.stops(Clause::Cache) {
+                            out.stop = true;
+                        }
                     }
                 }
                 if let Some(m) = m {
@@ -877,7 +898,9 @@ impl Exec {
                                 &site,
                                 format!("distilled tree has {terms} terminals; the network has {fat} full-dimensional and {nonempty} non-empty closed activation regions"),
                             ));
-                            out.stop = true;
+                            if self.stops(Clause::Effective) {
+                                out.stop = true;
+                            }
                         }
                     }
                     self.models[*slot] = m;
@@ -921,7 +944,9 @@ impl Exec {
         self.stats.c06_thin_nodes_kept += st.thin_nodes_kept;
         if let Err((class, detail)) = res {
             out.violations.push(self.viol(Clause::Effective, &class, site, detail));
-            out.stop = true;
+            if self.stops(Clause::Effective) {
+                out.stop = true;
+            }
             return;
         }
         // (c) a second run changes nothing
@@ -933,7 +958,9 @@ impl Exec {
         match r {
             Err(p) => {
                 out.violations.push(self.viol(Clause::Effective, "second_elimination_panicked", site, panic_site(&p)));
-                out.stop = true;
+                if self.stops(Clause::Effective) {
+                    out.stop = true;
+                }
             }
             Ok(counter) => {
                 let sig_after = oracle::full_signature(&again);
@@ -946,7 +973,9 @@ impl Exec {
                         sig_before.iter().zip(sig_after.iter()).find(|(a, b)| a != b).map(|(a, _)| a.0)
                     );
                     out.violations.push(self.viol(Clause::Effective, "not_idempotent", site, detail));
-                    out.stop = true;
+                    if self.stops(Clause::Effective) {
+                        out.stop = true;
+                    }
                 }
             }
         }
@@ -1062,7 +1091,9 @@ impl Exec {
                         site,
                         format!("mirror_points returned {:?} for the path polytope of node {idx} (slot {slot}), which does not contain it", p),
                     ));
-                    out.stop = true;
+                    if self.stops(Clause::Cache) {
+                        out.stop = true;
+                    }
                     return;
                 }
             }
@@ -1117,10 +1148,13 @@ pub struct RunResult {
 }
 
 /// Executes a literal scenario from scratch.
-pub fn run_scenario(sc: &Scenario) -> RunResult {
+pub fn run_scenario(sc: &Scenario, focus: Option<&str>) -> RunResult {
     let mut violations = Vec::new();
     let mut ex = match Exec::new(sc, true) {
-        Ok(e) => e,
+        Ok(mut e) => {
+            e.focus = focus.map(|f| f.to_string());
+            e
+        }
         Err(_) => {
             lpseam::uninstall();
             return RunResult { scenario: sc.clone(), violations, stats: PwlStats::default(), invalid: true, steps_done: 0 };
@@ -1210,7 +1244,10 @@ pub fn seeded_history_run_traced(focus: &str, run_seed: u64, deep: bool, print: 
     };
     let mut violations = Vec::new();
     let mut ex = match Exec::new(&sc, true) {
-        Ok(e) => e,
+        Ok(mut e) => {
+            e.focus = Some(focus.to_string());
+            e
+        }
         Err(e) => {
             lpseam::uninstall();
             let mut stats = PwlStats::default();
@@ -1304,6 +1341,7 @@ fn run_suffix(prefix_pool: &[AffTree<2>], prefix_models: &[ModelTree], sc: &Scen
         records_all: Vec::new(),
         removed_any: false,
         selfcheck_pm: 0,
+        focus: None,
     };
     for f in sc.fault_plan.faults.values() {
         bump(&mut ex.stats.faults_configured, f.family(), 1);
@@ -1405,7 +1443,14 @@ pub fn seeded_fault_scenario_traced(run_seed: u64, thorough: bool, print: bool) 
         // the first faulty step always prunes; later ones may be ordinary operations working on the
         // leftovers of the faulty ones (reduce, clone, apply_func, unpruned composition, ...)
         let only_pruning = sc.history.len() == sc.fault_from_step || rng.chance(2, 3);
-        let Some(op) = gen::gen_op(&mut rng, &k2, &infos, only_pruning) else { break };
+        // an elimination is often followed by reduce on the same tree (moves caches around)
+        let forced = match sc.history.last() {
+            Some(Op::Eliminate { slot }) | Some(Op::Pipeline { slot, .. }) if sc.history.len() > sc.fault_from_step && rng.chance(1, 3) => {
+                Some(Op::Reduce { slot: *slot })
+            }
+            _ => None,
+        };
+        let Some(op) = forced.or_else(|| gen::gen_op(&mut rng, &k2, &infos, only_pruning)) else { break };
         let rep = ex.step(&op);
         if rep.invalid || rep.stop || !rep.violations.is_empty() {
             lpseam::uninstall();
@@ -1458,13 +1503,21 @@ pub fn seeded_fault_scenario_traced(run_seed: u64, thorough: bool, print: bool) 
             result.enumerated_single += 1;
         }
     }
-    // pairs of positions (thorough, small n): kinds drawn per pair
-    if thorough && n_calls >= 2 && n_calls <= 12 {
+    // pairs of positions: thorough for n <= 12 with kinds from the whole menu; quick for n <= 8 with the
+    // kinds that leave a node without verdict or witness (Error, Unbounded, unrepairable far-off point) -
+    // the combination "parent has no witness AND one child's call fails" needs two faults
+    let destructive = [lpseam::FaultKind::Error, lpseam::FaultKind::Unbounded, lpseam::FaultKind::FarOff { variant: 1, pick: 7 }];
+    if n_calls >= 2 && ((thorough && n_calls <= 12) || n_calls <= 8) {
         for p in 0..n_calls {
             for q in (p + 1)..(n_calls + 2) {
                 let mut plan = FaultPlan::default();
-                plan.faults.insert(p, rng.pick(&menu).clone());
-                plan.faults.insert(q, rng.pick(&menu).clone());
+                if thorough {
+                    plan.faults.insert(p, rng.pick(&menu).clone());
+                    plan.faults.insert(q, rng.pick(&menu).clone());
+                } else {
+                    plan.faults.insert(p, rng.pick(&destructive).clone());
+                    plan.faults.insert(q, rng.pick(&destructive).clone());
+                }
                 try_plan(plan, &mut stats, &mut result);
                 result.enumerated_pairs += 1;
             }
@@ -1592,7 +1645,7 @@ pub fn minimize(sc: &Scenario, target: &Violation, budget: usize) -> (Scenario, 
             return None;
         }
         *budget -= 1;
-        let r = run_scenario(cand);
+        let r = run_scenario(cand, Some(&target.property));
         if r.invalid {
             return None;
         }
